@@ -5,6 +5,6 @@ PROP = "C03"
 MONITORS = ("M-carry", "M-drain")
 def scenarios(tier):
     return (corpus.handler_coverage_corpus() + corpus.poison_corpus() + corpus.seq_family(tier) + corpus.fanout_ok_family(tier)
-            + corpus.fanout_fail_family(tier))
+            + corpus.fanout_fail_family(tier) + corpus.bystander_family(tier))
 def run(tier, seed):
     return common.engine_check(PROP, scenarios(tier), MONITORS, tier, seed)
